@@ -1560,6 +1560,9 @@ func (b *Block) Value(pos dvid.Point3d) uint64 {
 		}
 	}
 	n := b.NumSBLabels[sbNum]
+	if n == 0 {
+		return 0 // uninitialized sub-block: no label index, all voxels are label 0
+	}
 	bits := bitsFor(n)
 	if bits == 0 {
 		idx := b.SBIndices[idxPos]
@@ -2141,7 +2144,10 @@ func (pb *PositionedBlock) writeRLEs(indices map[uint32]struct{}, op *OutputOp, 
 
 					switch numSBLabels {
 					case 0:
-						return fmt.Errorf("Sub-block with 0 labels detected: %s\n", pb.BCoord)
+						// uninitialized sub-block: all voxels are label 0, which is never foreground
+						dx = SubBlockSize - x%SubBlockSize
+						foreground = false
+						stepByVoxel = false
 					case 1:
 						dx = SubBlockSize - x%SubBlockSize
 						if vx+dx-1 > maxPt[0] {
